@@ -40,7 +40,7 @@ def gen_cases(ctx):
         if kind.startswith("step"):
             l1k = {"step0": 0, "step1": 1, "stepn": n}[kind]
             lb, ub = gen_box(rng, n, around_zero=(l1k > 0))
-            l1 = [abs(rng.dyadic(0, 3)) if rng.random() < 0.8 else 0.0 for _ in range(l1k)]
+            l1 = [abs(rng.dyadic(0, 3)) if rng.random() < 0.65 else 0.0 for _ in range(l1k)]
             x = rng.vec(n, 2.0); g = rng.vec(n, 2.0)
             # aim at ties: forward point exactly on a bound or on the threshold
             for j in range(n):
@@ -52,6 +52,8 @@ def gen_cases(ctx):
                     x[j] = ub[j] + γ * g[j] - (γ * lam if lam else 0)
                 elif c < 0.55 and lam:
                     x[j] = γ * g[j] + rng.choice([1, -1]) * γ * lam
+                elif c < 0.7:
+                    x[j] = γ * g[j]          # forward point exactly 0 (the kink of |.|; with a zero weight it is an ordinary interior point)
             cases.append(dict(op="step", lb=lb, ub=ub, l1=l1, γ=γ, x=x, g=g))
         elif kind == "ustep":
             cases.append(dict(op="ustep", γ=γ, x=rng.vec(n, 2.0), g=rng.vec(n, 2.0)))
